@@ -56,7 +56,7 @@ def _adjoint_path(res, cfg, facts0, run, shapes, sub, none, tau, interior_fn, ma
     rleaves = [None if none[k] else rt.tensor(rng.uniform(-1, 1, size=s), requires_grad=bool(sub[k])) for k, s in enumerate(shapes)]
     ro = core.outcome(lambda: run(symtorch.real(), rleaves))
     if so[0] != ro[0] or (so[0] == 'raise' and so[1] != ro[1]):
-        res.status = 'error'; res.trace = 'symbolic outcome %r differs from real torch outcome %r' % (so[:3], ro[:3]); return None
+        res.status = 'error'; res.trace = 'symbolic outcome %r differs from real torch outcome %r' % (core.brief(so), core.brief(ro)); return None
     if so[0] == 'raise':
         res.status = 'skipped'; res.notes.append('transform raises %s: outside the adjoint property' % so[1]); return None
     routs = [o for o in ro[1] if _is_rout(o, rt)]
